@@ -131,6 +131,21 @@ static void check05(Value &tree, bool arr, unsigned depth, const std::vector<WOp
         while (i < enc.size() && r.buf[i] == enc[i]) i++;
         VH_FAIL("C05/not-canonical", "writer output differs from the canonical encoding at offset %zu: got %s; %s", i, ref::hex(r.buf, 160).c_str(), ctx().c_str());
     }
+    // the same sequence on a writer that overflowed before and was reset (a reset that returns true gives a clean writer)
+    if (enc.size() >= 2) {
+        Block dst2(enc.size());
+        dst2.fill(0x3C);
+        binson_writer w2;
+        binson_writer_init(&w2, dst2.p, dst2.n);
+        for (int rep = 0; rep < 2; rep++) for (size_t i = 0; i < ops.size(); i++) do_write(&w2, ops[i], *pl.b[i]);  // twice: overflows
+        if (w2.error_flags == BINSON_ERROR_RANGE && binson_writer_reset(&w2)) {
+            for (size_t i = 0; i < ops.size(); i++)
+                if (!do_write(&w2, ops[i], *pl.b[i])) VH_FAIL("C05/after-reset/write-failed", "call %zu failed on a writer that was reset after an overflow; %s", i, ctx().c_str());
+            if (binson_writer_get_counter(&w2) != enc.size() || memcmp(dst2.p, enc.data(), enc.size()) != 0)
+                VH_FAIL("C05/after-reset/not-canonical", "a writer that overflowed and was reset does not produce the canonical bytes: %s; %s", ref::hex(dst2.p, dst2.n, 120).c_str(), ctx().c_str());
+            st.label("rewritten-after-overflow+reset");
+        }
+    }
     // accepted by verify with sufficient depth and decodes to the values written - within the depth limits
     // (at most 255 nested objects, at most 255 arrays directly inside one another)
     {
